@@ -93,23 +93,41 @@ func c05Apply(db *wt.Whisper, op AOp, now int64, v float64) (string, string) {
 func c05Run(c *fw.Ctx, cfg ACfg, init []byte, now int64, seq []c05Op) (sig, desc string, crashPoints int64) {
 	vrt.SetPagesize(cfg.Page)
 	p := filepath.Join(c.Dir, "c05.wsp")
-	os.WriteFile(p, init, 0644)
-	db, err := wt.Open(p)
-	if err != nil {
-		return "", "", 0
+	l := cfg.Layout()
+	var db *wt.Whisper
+	var err error
+	var synced []wsp.Ring
+	if init == nil {
+		// the handle comes from Create and has never been synced: the disk holds what Create left
+		os.Remove(p)
+		db, err = wt.Create(p, archList(cfg.Archs), wt.AggregationMethod(cfg.Method), cfg.XFF)
+		if err != nil {
+			return "", "", 0
+		}
+		init, _ = os.ReadFile(p)
+		synced = EmptyRings(l)
+	} else {
+		os.WriteFile(p, init, 0644)
+		db, err = wt.Open(p)
+		if err != nil {
+			return "", "", 0
+		}
+		f0, err := wsp.Parse(init)
+		if err != nil {
+			db.Close()
+			return "", "", 0
+		}
+		synced, err = f0.Rings()
+		if err != nil {
+			db.Close()
+			return "", "", 0
+		}
 	}
 	defer func() { db.Close() }()
-	f0, err := wsp.Parse(init)
-	if err != nil {
-		return "", "", 0
-	}
-	synced, err := f0.Rings()
-	if err != nil {
-		return "", "", 0
-	}
+	created := len(init) > 0 && init[3] == 0 && init[15] == 0 // header not on disk yet
+	hdrWant := l.EncodeHeader()
 	live := wsp.CloneRings(synced)
 	lastSynced := init
-	l := cfg.Layout()
 	names := func(n int) string {
 		var s []string
 		for _, o := range seq[:n+1] {
@@ -138,7 +156,7 @@ func c05Run(c *fw.Ctx, cfg ACfg, init []byte, now int64, seq []c05Op) (sig, desc
 			}
 			disk, _ := os.ReadFile(p)
 			ctx := fmt.Sprintf("layout %s page=%d now=%d after [%s]", cfg.Spec, cfg.Page, now, names(i))
-			if len(disk) != len(init) || !bytes.Equal(disk[:l.HeaderSize()], init[:l.HeaderSize()]) {
+			if len(disk) != len(init) || int64(len(disk)) != l.FileSize() || !bytes.Equal(disk[:l.HeaderSize()], hdrWant) {
 				return "C05/sync/length-or-header-changed", ctx + ": file length or header bytes changed", crashPoints
 			}
 			f, err := wsp.Parse(disk)
@@ -190,6 +208,15 @@ func c05Run(c *fw.Ctx, cfg ACfg, init []byte, now int64, seq []c05Op) (sig, desc
 			}
 		case o.name == "ABANDON":
 			db.Close()
+			if created && bytes.Equal(lastSynced, init) {
+				// nothing was ever synced: the file must still be exactly what Create left; there is no header to reopen
+				disk, _ := os.ReadFile(p)
+				crashPoints++
+				if !bytes.Equal(disk, init) {
+					return "C05/bytes-changed-outside-sync/after-ABANDON-of-created-handle", fmt.Sprintf("layout %s page=%d after [%s]: dropping a created, never synced handle changed the file", cfg.Spec, cfg.Page, names(i)), crashPoints
+				}
+				return "", "", crashPoints // (the deferred second Close of the same handle is harmless)
+			}
 			db, err = wt.Open(p)
 			if err != nil {
 				return "C05/reopen-failed", "after abandon: " + err.Error(), crashPoints
@@ -247,14 +274,14 @@ func runC05(c *fw.Ctx) {
 			c.Inconclusive("Create failed: " + err.Error())
 			continue
 		}
-		inits := [][]byte{fresh}
+		inits := [][]byte{fresh, nil} // nil: the sequence runs on a handle returned by Create (never synced)
 		age := ld.Archs[0].Ret() - 1
 		o := ApplyReal(c.Dir, cfg, AState{Bytes: fresh, Now: now}, AOp{Kind: "W1", Arch: 0, Ages: []int64{age}, Vals: []float64{9}})
 		if o.Post != nil {
 			inits = append(inits, o.Post)
 		}
 		if x.tag == "LP" {
-			inits = inits[1:] // base interval fixed so that age 20 lands on the page-straddling slot
+			inits = inits[2:] // base interval fixed so that age 20 lands on the page-straddling slot
 			maxLenLP := maxLen - 1
 			_ = maxLenLP
 		}
@@ -284,7 +311,11 @@ func runC05(c *fw.Ctx) {
 						for _, o := range seq {
 							names = append(names, o.name)
 						}
-						c.Violate(sig, desc, len(seq)*100+len(init)/100+ii, c05Case{Cfg: cfg, Init: hexs(init), Now: now, Seq: names}, "")
+						ih := hexs(init)
+						if init == nil {
+							ih = "create"
+						}
+						c.Violate(sig, desc, len(seq)*100+len(init)/100+ii, c05Case{Cfg: cfg, Init: ih, Now: now, Seq: names}, "")
 					}
 					if len(seq) == ml {
 						var names []string
@@ -324,7 +355,11 @@ func replayC05(c *fw.Ctx, raw json.RawMessage) (bool, string) {
 			}
 		}
 	}
-	sig, desc, _ := c05Run(c, k.Cfg, unhex(k.Init), k.Now, seq)
+	var init []byte
+	if k.Init != "create" {
+		init = unhex(k.Init)
+	}
+	sig, desc, _ := c05Run(c, k.Cfg, init, k.Now, seq)
 	return sig != "", desc
 }
 
